@@ -105,6 +105,16 @@ theorem C16_alloc_counterexample : ¬ C16_alloc_full := by
   rw [C16_alloc_d23.1] at this
   simp [pktD23] at this
 
+/-- D29: nested unnamed slices. The element-count check `n > len(packet)` bounds every level by the bytes that remain,
+    so a descriptor `[][]…[]uint8` of depth d followed by d slice headers allocates about 60·d² bytes from 6·d
+    bytes of input: depth 40 below (244 bytes → 93 624 bytes); the harness measures 65 MB for the 6 004-byte packet
+    of depth 1000 (listed finding C16/edf-alloc-nested), which is beyond the bound of `C16_alloc_full`. -/
+def pktNested40 : Bytes := [130, 0, 41, 157, 157, 157, 157, 157, 157, 157, 157, 157, 157, 157, 157, 157, 157, 157, 157, 157, 157, 157, 157, 157, 157, 157, 157, 157, 157, 157, 157, 157, 157, 157, 157, 157, 157, 157, 157, 157, 157, 157, 157, 151, 157, 0, 0, 0, 195, 157, 0, 0, 0, 190, 157, 0, 0, 0, 185, 157, 0, 0, 0, 180, 157, 0, 0, 0, 175, 157, 0, 0, 0, 170, 157, 0, 0, 0, 165, 157, 0, 0, 0, 160, 157, 0, 0, 0, 155, 157, 0, 0, 0, 150, 157, 0, 0, 0, 145, 157, 0, 0, 0, 140, 157, 0, 0, 0, 135, 157, 0, 0, 0, 130, 157, 0, 0, 0, 125, 157, 0, 0, 0, 120, 157, 0, 0, 0, 115, 157, 0, 0, 0, 110, 157, 0, 0, 0, 105, 157, 0, 0, 0, 100, 157, 0, 0, 0, 95, 157, 0, 0, 0, 90, 157, 0, 0, 0, 85, 157, 0, 0, 0, 80, 157, 0, 0, 0, 75, 157, 0, 0, 0, 70, 157, 0, 0, 0, 65, 157, 0, 0, 0, 60, 157, 0, 0, 0, 55, 157, 0, 0, 0, 50, 157, 0, 0, 0, 45, 157, 0, 0, 0, 40, 157, 0, 0, 0, 35, 157, 0, 0, 0, 30, 157, 0, 0, 0, 25, 157, 0, 0, 0, 20, 157, 0, 0, 0, 15, 157, 0, 0, 0, 10, 157, 0, 0, 0, 5, 157, 0, 0, 0, 1]
+
+set_option maxRecDepth 100000 in
+theorem C16_alloc_nested : allocTop o0 60 pktNested40 = 93624 ∧ pktNested40.length = 244 ∧ decode o0 60 pktNested40 = .err := by
+  refine ⟨by decide, by decide, by decide⟩
+
 -- ------------------------------------------------------------------------------------------------
 -- a value that decodes re-encodes to bytes that decode to the same value
 -- ------------------------------------------------------------------------------------------------
